@@ -75,6 +75,13 @@ CHECKS = {
          "Trusted: the reference evaluator in checks/c18_paths.py and the package graph obtained through getDirectDepSteps/"
          "getIndirectDepSteps. Aliases are not generated yet. One known finding (reported path may bypass steps) is excluded and counted.",
          "3 (C18)", "E5 pkgdump, E8 strlang"),
+ "C03": ("exploration",
+         "Hypothesis project generation; metamorphic relations on the (Variant-Id, Build-Id) map under id-irrelevant transformations (location, file order, timestamps, hash seed, parse order, extra roots, irrelevant edits, sandbox on/off, weak tool variant) with a sensitivity control; golden comparison for the shipped reference project",
+         "For generated projects the id map must be invariant under every transformation the property lists, Build-Ids are computed "
+         "with the builder's own digest routine; the shipped stable-variant-ids project must reproduce its five recorded spec files.",
+         "Trusted: synthetic source hashes and empty host fingerprints for the Build-Id computation; sandbox (in)sensitivity is "
+         "decided from the model (no fingerprinted step in the dependency closure).",
+         "3 (C03)", "E2 projgen, E5 pkgdump"),
 }
 
 NOT_YET = {}
